@@ -24,6 +24,7 @@ sys.path.insert(0, os.path.join(VERIF, "translators"))
 import gen_awq  # noqa: E402
 import gen_c04  # noqa: E402
 import gen_calib  # noqa: E402
+import gen_glue  # noqa: E402
 import gen_grad  # noqa: E402
 import gen_mm  # noqa: E402
 import gen_mod  # noqa: E402
@@ -40,6 +41,9 @@ SKIP_DIRS = ("/models/", "/cuda/", "/mps/", "/hip/", "/subpackage/")
 
 def run_all(repo):
     out = {}
+    # glue fingerprints, per property
+    for pid in sorted(gen_glue.TARGETS):
+        out["Glue:" + pid] = hashlib.sha256(repr(gen_glue.prints(repo, pid)).encode()).hexdigest()
     with tempfile.TemporaryDirectory() as d:
         for name, mod in GENS:
             path = os.path.join(d, name + ".v")
@@ -114,6 +118,7 @@ def main():
                 report[f"{rel}::{qual}"] = {"covered_by": None, "note": "not perturbable (one-line body)"}
                 continue
             hit = []
+            names = [n for n, _ in GENS] + ["Glue:" + pid for pid in sorted(gen_glue.TARGETS)]
             # `pass` changes every AST fingerprint; translators skip it, so a dead assignment is tried as well
             for stmt in ("pass", "tie_probe_ = 0"):
                 open(p, "w").write(perturb(src, fn, stmt))
@@ -121,8 +126,8 @@ def main():
                     now = run_all(repo)
                 finally:
                     open(p, "w").write(src)
-                hit += [n for n, _ in GENS if now[n] != base[n] and n not in hit]
-            report[f"{rel}::{qual}"] = {"covered_by": hit, "properties": sorted(set(" ".join(USERS[h] for h in hit).split()))}
+                hit += [n for n in names if now[n] != base[n] and n not in hit]
+            report[f"{rel}::{qual}"] = {"covered_by": hit, "properties": sorted(set(" ".join(USERS.get(h, h[5:]) for h in hit).split()))}
     subprocess.run(["git", "-C", repo, "checkout", "-q", "--", "."], check=True)
     cov = [k for k, v in report.items() if v["covered_by"]]
     unc = [k for k, v in report.items() if v["covered_by"] == []]
